@@ -7,8 +7,8 @@ from . import common
 
 ID = "C15"
 LEVEL = "exploration"
-BUDGET = {"quick": 1600, "thorough": 48000}
-WALL_CAP = {"quick": 240, "thorough": 3000}
+BUDGET = {"quick": 32000, "thorough": 640000}
+WALL_CAP = {"quick": 600, "thorough": 5400}
 RULE = ("case = generated 2D/3D plotfile (levels, mixed box extents, boxes scattered over files in any "
         "on-disk order, special payloads) x field-selector form x level, iterated under a drawn SimPool "
         "schedule (W, completion order, lazy/eager delivery; all completion orders are reachable through the "
